@@ -2,10 +2,10 @@ package main
 
 import (
 	"fmt"
-	"os"
-	"sort"
 	"go/token"
 	"go/types"
+	"os"
+	"sort"
 	"strings"
 
 	"golang.org/x/tools/go/ssa"
@@ -185,6 +185,16 @@ func (f *frame) execCall(instr ssa.Value, call *ssa.CallCommon) {
 		for i, fp := range f.fn.Params {
 			if fp == p && i < len(v.fc.Params) {
 				if target, ok := v.fc.FnParams[v.fc.Params[i]]; ok {
+					if strings.HasSuffix(target, ".pure") {
+						// the function value is required to be effect-free (checked where it is passed):
+						// its result is unconstrained, the state is unchanged except for allocation
+						v.note("calls through parameter %s are treated as calls of an effect-free function (checked at the call sites that pass it)", v.fc.Params[i])
+						now2 := v.ctx.Fresh("now", SInt)
+						v.ctx.Assert(T(SBool, "(>= %s %s)", now2.S, f.cur.now.S))
+						f.cur = f.cur.withNow(now2)
+						res = freshResult("fnval")
+						return
+					}
 					if fn := v.eng.fnByKey[target]; fn != nil {
 						v.note("calls through parameter %s are checked against the contract of %s (the only function passed for it)", v.fc.Params[i], target)
 						res = f.callFunction(fn, args, nil, call.Pos())
@@ -202,7 +212,14 @@ func (f *frame) callFunction(fn *ssa.Function, args []Val, bindings []Val, pos t
 	key := v.eng.funcKey(fn)
 	sig := fn.Signature
 	if f.isRoot {
-		f.siteAsserts(key, pos)
+		var ptypes []types.Type
+		if sig.Recv() != nil {
+			ptypes = append(ptypes, sig.Recv().Type())
+		}
+		for i := 0; i < sig.Params().Len(); i++ {
+			ptypes = append(ptypes, sig.Params().At(i).Type())
+		}
+		f.siteAsserts(key, pos, args, ptypes)
 	}
 	// math.Max / math.Ceil over the reals are built in (structured terms, see intForm)
 	switch key {
@@ -432,7 +449,8 @@ func (f *frame) builtin(b *ssa.Builtin, call *ssa.CallCommon) Val {
 }
 
 // singleton recognises the SSA shape of a one-element variadic argument:
-//   t1 = new [1]T (varargs); t2 = &t1[0]; *t2 = x; t3 = slice t1[:]
+//
+//	t1 = new [1]T (varargs); t2 = &t1[0]; *t2 = x; t3 = slice t1[:]
 func (f *frame) singleton(arg ssa.Value) (Val, bool) {
 	sl, ok := arg.(*ssa.Slice)
 	if !ok {
@@ -489,6 +507,32 @@ func (f *frame) applyContractX(fc *FuncContract, args []Val, ptypes []types.Type
 	}
 	for pname, target := range fc.FnParams {
 		for i, n := range fc.Params {
+			if n == pname && i < len(args) && strings.HasSuffix(target, ".pure") {
+				// the closure passed must itself be under a contract without a modifies clause
+				ok := false
+				why := "not a closure made here"
+				var cfn *ssa.Function
+				if cv, isC := args[i].(*ClosureV); isC {
+					cfn = cv.Fn
+				} else if t, isT := args[i].(Term); isT {
+					cfn = v.fnTerms[t.S]
+				}
+				if cfn != nil {
+					ck := v.eng.funcKey(cfn)
+					if cc := v.eng.db.Funcs[ck]; cc != nil && !cc.Assume && len(cc.Of("modifies")) == 0 {
+						ok = true
+						v.callees[ck] = true
+					} else {
+						why = ck + " has no contract, or one with a modifies clause"
+					}
+				}
+				goal := TFalse
+				if ok {
+					goal = TTrue
+				}
+				v.oblige("pre", fmt.Sprintf("%s/fnarg@%s.%s@%d", v.fc.Key, fc.Key, pname, v.siteN[fc.Key]+1), nil, f.reach, goal, v.pos(pos), "the function passed for "+pname+" is effect-free ("+why+")")
+				continue
+			}
 			if n == pname && i < len(args) {
 				want := v.ctx.Const("func:"+v.eng.fnByKey[target].String(), SFn)
 				got, isT := args[i].(Term)
@@ -883,7 +927,7 @@ func (te *TEnv) tryObjRef(e Expr) (ref Term, t types.Type, ok bool) {
 }
 
 // siteAsserts discharges `assert @Callee#n` clauses of the root contract at this call site.
-func (f *frame) siteAsserts(calleeKey string, pos token.Pos) {
+func (f *frame) siteAsserts(calleeKey string, pos token.Pos, args []Val, ptypes []types.Type) {
 	v := f.v
 	short := calleeKey
 	if i := strings.LastIndex(short, "."); i >= 0 {
@@ -919,6 +963,12 @@ func (f *frame) siteAsserts(calleeKey string, pos token.Pos) {
 			continue
 		}
 		env := f.siteEnv()
+		// #arg0, #arg1, ...: the actual arguments of this call (receiver first)
+		for i, a := range args {
+			if i < len(ptypes) {
+				env.vars[fmt.Sprintf("#arg%d", i)] = TV{a, ptypes[i]}
+			}
+		}
 		goal := v.trClause(env, cl)
 		tag := ""
 		if len(cl.Tags) > 0 {
@@ -968,6 +1018,15 @@ func (f *frame) siteEnv() *TEnv {
 						return TV{v.loadCell(f.cur, a, t, env.quiet()), t}, true
 					case AddrV:
 						return TV{v.loadField(f.cur, a.Obj, a.T, a.Field, env.quiet()), t}, true
+					case StackAddrV:
+						cur, ok := f.cur.stk[a.A]
+						if !ok {
+							continue
+						}
+						for _, i := range a.Path {
+							cur = cur.(*StructV).Get(i)
+						}
+						return TV{cur, t}, true
 					}
 					continue
 				}
